@@ -134,6 +134,16 @@ class A(Adapter):
         n = mask.shape[0]
         if policy == "uniform":
             return rng.integers(0, 6, size=n).astype(np.int32)
+        if policy == "late_adversarial":
+            # forage by the mask; late in the episode one agent plays a masked-out action now and then
+            out = self.choose_action(env, s, ts, "masked", rng, t)
+            if t >= 4 and rng.random() < 0.25:
+                i = int(rng.integers(n))
+                bad = np.flatnonzero(~mask[i])
+                if len(bad):
+                    out = np.array(out)
+                    out[i] = rng.choice(bad)
+            return out
         if policy == "adversarial":
             out = np.zeros(n, np.int32)
             for i in range(n):
